@@ -50,10 +50,17 @@ MANIFEST = dict(
          "verified. RESIDUAL CLASS OUTSIDE THE THEOREMS: damage that a decoder spreads over more than one <=32/16-bit burst and whose "
          "check collides (2^-32 / 2^-16 per case) cannot be excluded by any proof; the oracle classifies an accepted different "
          "payload whose CRC-16 genuinely equals the stored field as `residual-crc16-collision` (counted, not a violation). ArcFS "
-         "members with stored CRC 0 are unchecked by design; a zip central-directory record damaged to comp_size = 0 bypasses "
-         "miniz's CRC compare (hypothesis compSize != 0; the loaders then see an uninitialised buffer). xz gate is modelled for "
-         "single-block CRC-32 streams at field level (tie: oracle + model CRC vs liblzma's fields); xz streams with check types "
-         "none/CRC64/SHA256 carry no implemented check and are out of scope. Correspondence is sampled, not exhaustive.",
+         "members with stored CRC 0 are unchecked by design (hypothesis of C09_reject_arcfs; generators only emit non-zero CRCs). "
+         "zipExtract models mz_zip_reader_extract_to_mem_no_alloc1 given the central-directory record; its comp_size = 0 early "
+         "return (no CRC compare) is excluded by hypothesis compSize != 0 -- in the real reader mz_zip_reader_init refuses "
+         "`decomp_size && !comp_size` records first (outside the model; tie for zip is one-sided: real accepts => model accepts). "
+         "FINDING: bunzip2.c never compares the stored bzip2 STREAM CRC (write_bunzip_data returns gotcount at the end-of-stream "
+         "header; generated fact Gen.bzStreamCrcDead, theorem C09_bzip2_stream_crc_unchecked, fix in "
+         "proposed_fixes/c09_bzip2_stream_crc.diff); block CRCs still gate every byte, so the quantified property holds. "
+         "xz gate is modelled for single-block CRC-32 streams at field level (tie: field-fault correspondence, oracle, model CRC vs "
+         "liblzma's fields); xz check types none/CRC64/SHA256 carry no implemented check and are out of scope. Archives with "
+         "several loadable members (repo lzxmerge) are outside the oracle: damage to one entry legitimately selects the next, "
+         "intact and checked, member. Correspondence is sampled, not exhaustive.",
     technique="Lean 4: decide+kernel over generated tables, induction, BitVec LFSR invariant for burst detection, gate lemmas for "
               "arbitrary decoder; differential correspondence with link-level spies; exhaustive/sampled fault injection oracle",
     design_ref="DESIGN.md section 4 C08/C09, Appendix A.2",
@@ -63,7 +70,7 @@ NS = "Xmp.C09."
 REQUIRED = [NS + n for n in (
     "C09_crc_table_eq_bitwise", "C09_crc_linear", "C09_crc_detects_burst", "C09_bzcrc_detects_burst",
     "C09_crc32_detects", "C09_crc16_detects", "C09_bzcrc_detects", "C09_crc32_detects_bytes", "C09_crc16_detects_bytes",
-    "C09_gate_gzip", "C09_gate_zip", "C09_gate_bzip2", "C09_bzip2_stream_crc_unchecked", "C09_gate_xz", "C09_gate_arc", "C09_gate_arcfs", "C09_gate_lzx",
+    "C09_gate_gzip", "C09_gate_zip", "C09_gate_zip_member", "C09_gate_bzip2", "C09_bzip2_stream_crc_unchecked", "C09_gate_xz", "C09_gate_arc", "C09_gate_arcfs", "C09_gate_lzx",
     "C09_reject_gzip", "C09_reject_gzip_field", "C09_reject_zip", "C09_reject_zip_field", "C09_reject_bzip2",
     "C09_reject_xz", "C09_reject_xz_field", "C09_reject_arc", "C09_reject_arcfs", "C09_reject_lzx", "C09_reject")]
 
@@ -375,6 +382,7 @@ def field_gate_ties(ck, orc, archives, quick):
             c = a["zip"]["cdh"]
             offs = list(range(c + 16, c + 28)) + [c + 10, c + 11]
             faults = [("none",)] + [("flip", o, b) for o in offs for b in (range(8) if not quick else [ck.rng.randrange(8), ck.rng.randrange(8)])]
+            faults += [("sub", c + 20 + k, 0) for k in range(4)]
             dstart = a["zip"]["data"]
             for _ in range(10 if quick else 60):
                 csz = struct.unpack("<I", a["data"][c + 20:c + 24])[0]
@@ -384,7 +392,7 @@ def field_gate_ties(ck, orc, archives, quick):
             for i, x in enumerate(faults):
                 b = A.apply_fault(a["data"], x)
                 st = parse_zip_member(b)
-                if st is None or st["cs"] == 0 or i not in res:
+                if st is None or i not in res:
                     continue
                 tail = b[st["data"]:] if st["data"] + st["cs"] <= len(b) else None
                 inf = "none"
